@@ -371,3 +371,41 @@ Theorem c03_listen_failure_leaves_slot_free : forall cf st s n, fresh st n = tru
   end.
 Proof. exact listen_fail_no_input. Qed.
 Print Assumptions c03_listen_failure_leaves_slot_free.
+
+(* ---- server shells whose writes fail (GroupShellWrites.v) ----------------------------------------------------------
+   "start/stop notifications are emitted exactly once per accepted network session, as matching pairs ... none for refused
+   publishers".  The connection may break while the shell answers: "the w-th write fails" is a parameter of the arrival, and
+   what it amounts to is a list of events of the layers below (which callbacks have fired is what the code does): an RTMP
+   shell ends at the failed write, before the observer has seen the session when the write is one of the replies up to the
+   answer to publish / play; an RTSP response that cannot be written closes the connection, the shell ends with it. *)
+From Lal Require Import Group.GroupShellWrites Group.GroupShellWritesProofs.
+
+(* RTMP, any write up to and including the answer to publish (7) / play (9): the observer never sees the session - the step
+   notifies nothing (no stop without a start), creates and changes no group, and leaves the name that of a refused session *)
+Theorem c03_rtmp_write_fail_silent : forall fsh fx cf cs pub s n w,
+  (w <= rtmp_writes pub)%nat -> fresh (cs_base cs) n = true -> reserved cs n = false ->
+  let e := if pub then ERtmpPub s n true else ERtmpSub s n true in
+  write_fail_events (cs_base cs) (if pub then WRtmpPub else WRtmpSub) s n w = [CE e] /\
+  let '(cs1, r, ns) := cstep fsh fx cf cs (CE e) in
+  r = RRef /\ ns = [] /\ st_groups (cs_base cs1) = st_groups (cs_base cs) /\ cs_conns cs1 = cs_conns cs /\
+  vsess (cs_base cs1) n = Some (if pub then KRtmpPub else KRtmpSub, s, false, true).
+Proof. exact rtmp_write_fail_silent. Qed.
+Print Assumptions c03_rtmp_write_fail_silent.
+
+(* every failing-write position on every shell, after any history: the notifications of every connection are start (once
+   admitted) then stop (once gone) - a stop only after a start, nothing for a session that was never admitted -, and a
+   stream has one input at most *)
+Theorem c03_write_fail_notifications : forall fsh cf h k s n w m,
+  let st := cs_base (fst (crun fsh fixed_tree cf init_cstate h)) in
+  let h' := h ++ write_fail_events st k s n w in
+  word (snd (crun fsh fixed_tree cf init_cstate h')) (WConn m)
+  = conn_word (vsess (cs_base (fst (crun fsh fixed_tree cf init_cstate h'))) m).
+Proof. exact write_fail_notifications. Qed.
+Print Assumptions c03_write_fail_notifications.
+
+Theorem c03_write_fail_single_input : forall fsh cf h k s n w s' g,
+  let st := cs_base (fst (crun fsh fixed_tree cf init_cstate h)) in
+  let h' := h ++ write_fail_events st k s n w in
+  get_group (cs_base (fst (crun fsh fixed_tree cf init_cstate h'))) s' = Some g -> (occupied g <= 1)%nat.
+Proof. exact write_fail_single_input. Qed.
+Print Assumptions c03_write_fail_single_input.
